@@ -148,7 +148,7 @@ func TestVerifC16CLI(t *testing.T) {
 	rec := kit.Start(t, "C16", "dedupcli")
 	defer rec.Finish()
 	env := rec.Env
-	n := env.Pick(32, 400)
+	n := env.Pick(32, 96)
 	for ci := 0; ci < n; ci++ {
 		if !env.Mine(ci) {
 			continue
